@@ -91,6 +91,7 @@ static int connCounter = 0;
 static int ephemeral = 40000;
 static std::map<std::string, int> unixNodes; // path -> listener index
 static bool capture = false;
+static std::vector<uint64_t> connBytes; // bytes sent on a connection, both directions (reset fault)
 static std::vector<std::string> cap[2];
 static std::set<void*> ourAddrinfo;
 
@@ -215,6 +216,7 @@ void reset_()
 	unixNodes.clear();
 	cap[0].clear();
 	cap[1].clear();
+	connBytes.clear();
 	capture = false;
 	genCounter = 0;
 }
@@ -440,6 +442,28 @@ static ssize_t doSend(int fd, const void* data, size_t n, bool whole)
 		st.bytesSent += k;
 		if (capture && e->conn >= 0)
 			cap[e->side][e->conn].append((const char*)data, k);
+		// fault: connection #net.reset_conn is reset once net.reset_after bytes have travelled on it (either direction)
+		if (e->conn >= 0 && knob("net.reset_conn", -1) == e->conn)
+		{
+			if ((int)connBytes.size() <= e->conn)
+				connBytes.resize((size_t)e->conn + 1, 0);
+			connBytes[(size_t)e->conn] += k;
+			if (connBytes[(size_t)e->conn] >= (uint64_t)knob("net.reset_after", 0) && !e->gotRst)
+			{
+				faultFired("reset");
+				e->gotRst = true;
+				e->in.reset = true;
+				e->peerGone = true;
+				p->gotRst = true;
+				p->in.reset = true;
+				p->peerGone = true;
+				// what was in flight is lost with the connection
+				e->in.q.clear();
+				e->in.buffered = 0;
+				p->in.q.clear();
+				p->in.buffered = 0;
+			}
+		}
 		changed();
 		return (ssize_t)k;
 	}
